@@ -92,6 +92,10 @@ inductive Fx
   | joinGroup (g : String)        -- `pg::join(g, [myself])`
   | reply (k v : Nat)             -- reply `v` on the held reply port of call `k`
   | forget (k : Nat)              -- drop the held reply port of call `k`
+  /-- spawn a child from inside the callback: `ActorRuntime::spawn_linked_instant(None, child, (), myself)`
+  (the instant form: no await inside the callback; the child's start task is polled like any instant
+  start). `c` is the slot the harness gives the child. -/
+  | spawnChild (c : Nat)
   deriving DecidableEq, Repr, Inhabited
 
 inductive Term | tick | ok | err (n : Nat) | panic (n : Nat)
@@ -188,6 +192,7 @@ inductive Ev
   | fxJoin (g : String)            -- the callback called `pg::join`
   | fxReply (k v : Nat) (ok : Bool)   -- the callback replied on port `k` (`ok`: it held the port)
   | fxForget (k : Nat) (ok : Bool)
+  | fxSpawn (c : Nat) (loc : Bool)    -- the callback spawned child `c` (instant, linked to me at its start)
   | callRet (k : Nat) (r : CallRes)   -- what the caller of call `k` (addressed to this actor) sees
   | callSent (k : Nat) (ok : Bool)    -- the request of call `k` was sent: `ok` = accepted into the mailbox
   | polled                            -- the loop task was polled once (end of a `poll` op)
@@ -201,6 +206,7 @@ inductive Eff
   | link (p : Nat)              -- `SupervisionTree::link`: insert me into `p`'s child set
   | unlink (p : Nat)            -- `SupervisionTree::unlink`: remove me from `p`'s child set
   | monSend (m : Nat) (e : SupEv)  -- feature `monitors`: hand the copy `e` to monitor `m`'s supervision port
+  | spawnChild (c : Nat) (isLocal : Bool)   -- a callback of mine spawned child `c` with `spawn_linked_instant`
   deriving DecidableEq, Repr, Inhabited
 
 inductive Out
@@ -472,6 +478,7 @@ def runFx (a : Actor) : Fx → M
   | .forget k =>
     if fateOf a.calls k = some .held then ({ a with calls := setFate a.calls k .dropped }, [.ev (.fxForget k true)])
     else (a, [.ev (.fxForget k false)])
+  | .spawnChild c => (a, [.ev (.fxSpawn c a.isLocal), .eff (.spawnChild c a.isLocal)])
 
 def runFxs (a : Actor) : List Fx → M
   | [] => (a, [])
@@ -806,6 +813,10 @@ def World.effects (fuel : Nat) (w : World) (outs : List WOut) : World × List WO
         | .eff (.cascade kids) => World.cascade fuel w kids
         | .eff (.link p) => w.apply p (.kidAdd src)
         | .eff (.unlink p) => w.apply p (.kidDel src)
+        | .eff (.spawnChild c loc) =>
+          -- the cell of the child: `new()` only; it asks for `src` as its supervisor at its start
+          let w1 : World := if c = w.actors.length then { w with actors := w.actors ++ [Actor.init c] } else w
+          w1.apply c (.spawnInstant (some src) none true loc)
         | .eff (.monSend m e) =>
           -- best effort: a monitor whose port is gone is removed from the monitor set
           let r1 := w.apply m (.supArrive e)
@@ -934,6 +945,9 @@ def World.effectsDone (fuel : Nat) (w : World) (outs : List WOut) : Bool :=
         | .eff (.cascade kids) => World.cascade fuel w kids
         | .eff (.link p) => w.apply p (.kidAdd src)
         | .eff (.unlink p) => w.apply p (.kidDel src)
+        | .eff (.spawnChild c loc) =>
+          let w1 : World := if c = w.actors.length then { w with actors := w.actors ++ [Actor.init c] } else w
+          w1.apply c (.spawnInstant (some src) none true loc)
         | .eff (.monSend m e) =>
           let r1 := w.apply m (.supArrive e)
           if (w.get m).portsOpen then r1
